@@ -15,7 +15,7 @@
    [names_distinct] (known finding D7: a token and a literal with the same text are one terminal) — and
    verdict, diagnostics (kind, symbol) and definition list equal those of spec.Parse / Spec.DFA. *)
 From Coq Require Import String List Bool NArith Permutation.
-From Verif Require Import Cfg.Ebnf Cfg.Translate Emerge.SpecModel Emerge.SpecWf Emerge.SpecTable Emerge.SpecRules Emerge.SpecVerdict Emerge.Pipeline.
+From Verif Require Import Cfg.Ebnf Cfg.Translate Emerge.SpecModel Emerge.SpecWf Emerge.SpecTable Emerge.SpecRules Emerge.SpecVerdict Emerge.SpecSigma Emerge.Pipeline.
 From VerifGen Require Import RuneGo.
 Import ListNotations.
 
@@ -169,6 +169,17 @@ Proof.
   intros A HA. rewrite forallb_forall in Hu. specialize (Hu A HA). apply negb_true_iff in Hu. exact Hu.
 Qed.
 Print Assumptions rejected_iff_ill_formed.
+
+(* ... and with the levels read off the directives (Emerge/SpecSigma.v: the recorded levels ARE the directives) the
+   verdict is declarative throughout: accepted iff well-formed and no handle is listed in two directives *)
+Theorem rejected_iff_ill_formed_declaratively :
+  forall ds, spec_names_distinct ds = true -> forallb (fun A => negb (is_gen A)) (mentioned_nts ds) = true ->
+    (spec_diags ds = [] <-> well_formed predefs_s ds /\ levels_overlap (directive_levels (spec_nu ds) ds) = false).
+Proof.
+  intros ds Hn Hu. rewrite (rejected_iff_ill_formed ds Hn Hu).
+  unfold translate_spec, spec_nu, translate_spec. rewrite (recorded_levels_are_the_directives terminal_names predefs_s ds). reflexivity.
+Qed.
+Print Assumptions rejected_iff_ill_formed_declaratively.
 
 Fixpoint cp (s : string) : list N :=
   match s with EmptyString => [] | String a t => Ascii.N_of_ascii a :: cp t end.
